@@ -344,3 +344,25 @@ def qv5(ctx: Ctx):
         ctx.instance(rule)
         ctx.ob(rule, "<package>", "first-occurrence removals on query mappings", True, sample="none present (3 built-in examples judged correctly)",
                nontrivial=False)
+
+
+def qv6(ctx: Ctx):
+    """Parsing a query string keeps pairs with an empty value: every parse_qsl call passes keep_blank_values=True
+    (`?a=&b` has two pairs; dropping blank values changes which pairs an update keeps)."""
+    model = ctx.model
+    rule = "QV6"
+    ctx.rule(rule, floor=1, what="query strings are parsed with keep_blank_values=True")
+    for fi in model.all_funcs():
+        if fi.module not in ("_url", "_query"):
+            continue
+        r = analyze(model, fi)
+        seen = set()
+        for e in r.by_kind("call"):
+            if not (e.func[0] in ("ext", "global") and e.func[-1] == "parse_qsl") or id(e.node) in seen:
+                continue
+            seen.add(id(e.node))
+            ctx.instance(rule)
+            kw = dict(e.kwargs)
+            ok = kw.get("keep_blank_values") == ("const", True) or (len(e.args) >= 2 and e.args[1] == ("const", True))
+            ctx.ob(rule, fi.qual, show(e.value)[:80], ok, "parse_qsl without keep_blank_values=True drops pairs whose value is empty",
+                   where(fi, e.node), sample="keep_blank_values=True")
